@@ -824,6 +824,52 @@ def np_where(ctx, cond, x=None, y=None):
                          dtype=A.result_dtype([o.dtype if isinstance(o, Arr) else A.scalar_dtype(o) for o in (x, y)]))
 
 
+@lib('getitem:WhereIdx')
+def _where_getitem(ctx, w, idx):
+    if w.mask.ndim != 1 or idx != 0:
+        raise Unsupported('np.where(...)[k] for this rank')
+    return A.IndexSeq(w.mask.snapshot())
+
+
+@lib('getitem:IndexSeq')
+def _indexseq_getitem(ctx, seq, idx):
+    """Library contract for the idiom np.where(v)[0][[0, -1]]: first and last True index."""
+    items = items_of(ctx, idx) if not S.is_int(idx) else [idx]
+    if not all(isinstance(i, int) and i in (0, -1) for i in items):
+        raise Unsupported('index-set element other than first/last')
+    mask = seq.mask
+    n = mask.shape[0]
+    q = z3.Int(ctx._name('wq'))
+    some = z3.Exists([q], z3.And(q >= 0, q < S.z(n), S.z(S.truth(mask.at((q,))))))
+    ctx.require('where(...)[0] is non-empty', some, exc='IndexError')
+    if seq.first is None:
+        f, l = ctx.fresh_int('first'), ctx.fresh_int('last')
+        ctx.assume(z3.And(f >= 0, f <= l, l < S.z(n), S.z(S.truth(mask.at((f,)))), S.z(S.truth(mask.at((l,)))),
+                          z3.ForAll([q], z3.Implies(z3.And(q >= 0, q < S.z(n), S.z(S.truth(mask.at((q,))))),
+                                                    z3.And(f <= q, q <= l)))),
+                   'lib[exact]:np.where(v)[0][[0,-1]] = first/last True index')
+        seq.first, seq.last = f, l
+    vals = [seq.first if i == 0 else seq.last for i in items]
+    if S.is_int(idx):
+        return vals[0]
+    return Arr.from_list(vals)
+
+
+@lib('attr:slice.start')
+def _sl_start(ctx, s):
+    return s.start
+
+
+@lib('attr:slice.stop')
+def _sl_stop(ctx, s):
+    return s.stop
+
+
+@lib('attr:slice.step')
+def _sl_step(ctx, s):
+    return s.step
+
+
 @lib('numpy.nonzero')
 def np_nonzero(ctx, a):
     a = arr(ctx, a)
